@@ -111,6 +111,43 @@ check(
     "DESIGN.md section 3 / C06-C08",
 )
 
+check(
+    "C09",
+    "property-based testing: round-trip oracle (strip the inserted sentinel strings, compare with the target text) over generated plain/source/span/mode/engine tuples",
+    "Generated-input search (exploration): for generated plain texts, span sets (overlapping, empty, unsorted, "
+    "touching), optional source texts, three tag modes and both diff engines, deleting the unique before/after "
+    "sentinels from the output must give back the target text exactly; includes tag-rich plain texts, a style-pair "
+    "shape and spans extracted from marked-up documents.",
+    "before/after strings are private-use sentinels without backslashes that do not occur in the texts.",
+    "DESIGN.md section 3 / C09",
+)
+check(
+    "C10",
+    "property-based testing: forced-alignment oracle (inserted alphabet disjoint from the plain alphabet makes the expected source position of every character known) + monotonicity/in-range predicate over arbitrary string pairs",
+    "Generated-input search (exploration): exact extents for annotations under forced alignment with the minimal-diff "
+    "engine, exact count/content/order without a source text, and monotone in-range offset translation for arbitrary "
+    "string pairs with both diff engines.",
+    "Exact positions are asserted only for the minimal-diff engine (difflib is not a minimal diff).",
+    "DESIGN.md section 3 / C10",
+)
+check(
+    "C11",
+    "property-based testing: generated well-formed element trees x span sets x {skip, wrap}; lxml as well-formedness judge, text-content round trip",
+    "Generated-input search (exploration): for random well-formed trees and span sets, the annotated output of 'skip' "
+    "and 'wrap' must parse with lxml, keep the text content, and (wrap) contain every requested non-covered annotation.",
+    "lxml.etree.fromstring is the judge (the parser eyecite itself uses).",
+    "DESIGN.md section 3 / C11",
+)
+check(
+    "C20",
+    "property-based testing: differential against character-level reference scanners, algebraic laws (composition, idempotence), generated HTML trees with known visible text",
+    "Generated-input search (exploration): composition law, ValueError on unknown steps, idempotence and agreement "
+    "with regex-free reference scanners for the three text cleaners over a hostile whitespace alphabet; html() "
+    "against the visible text known from the generated tree.",
+    "HTML trees avoid constructs that the HTML parser restructures.",
+    "DESIGN.md section 3 / C20",
+)
+
 
 def build():
     all_ids = [f"C{i:02d}" for i in range(1, 21)]
